@@ -22,7 +22,7 @@ for c in CHECKS:
     })
 m = {
     "version": 1,
-    "setup_cmd": "python3 engine/build.py fast asan asan_dbg",
+    "setup_cmd": "python3 engine/build.py fast asan asan_dbg tsan",
     "hooks": {
         "guard": "JANET_VERIF",
         "enable": "engine/build.py compiles /repo/src/core/*.c per file with -DJANET_VERIF and links the harness in engine/harness with -Wl,--wrap interposition",
